@@ -12,6 +12,7 @@ import MC.Spec.Rows
 import MC.Spec.Canon
 import MC.Model.Speech
 import MC.Model.TextCodes
+import MC.Model.Fallback
 open Lean
 
 namespace MC.Driver
@@ -293,7 +294,27 @@ def handleTextCodes (op : String) (req : Json) : Option Json :=
   | "asciimath_cleanup" => some <| okJ <| toJson (ofCps (MC.TextCodes.asciimathCleanup (cps (getStr req "extra")) (cps (getStr req "s"))))
   | _ => none
 
-def handlers : List (String → Json → Option Json) := [handleVariant, handlePreproc, handlePrefs, handleNav, handleTts, handleIntent, handleHighlight, handleBrailleFinal, handleNumbers, handleRows, handleCanon, handleSpeech, handleTextCodes]
+def pathsOfJson (j : Json) : List (List String) :=
+  (j.getArr?.toOption.getD #[]).toList.map fun p => (p.getArr?.toOption.getD #[]).toList.map fun c => c.getStr?.toOption.getD ""
+
+def resJ (r : MC.Fallback.Res MC.Fallback.Path) : Json :=
+  match r with
+  | .ok p => toJson ("/".intercalate p)
+  | .err => Json.null
+
+def handleFallback (op : String) (req : Json) : Option Json :=
+  match op with
+  | "resolve_files" =>
+    let fs : MC.Fallback.FS := { dirs := pathsOfJson ((req.getObjVal? "dirs").toOption.getD Json.null), files := pathsOfJson ((req.getObjVal? "files").toOption.getD Json.null) }
+    let lang := ((getStr req "lang").splitOn "-").filter (· ≠ "")
+    let sp := MC.Fallback.speechFiles fs lang (getStr req "style")
+    let br := MC.Fallback.brailleFiles fs (((getStr req "code").splitOn "-").filter (· ≠ "")) (getStr req "code")
+    let styleAlts := (MC.Fallback.getLanguageDir fs "Languages" lang (some ["en"]))
+    some <| okJ <| Json.mkObj [("files", Json.arr ((sp ++ br).map fun (n, r) => Json.arr #[toJson n, resJ r]).toArray),
+      ("lang_dir", resJ styleAlts)]
+  | _ => none
+
+def handlers : List (String → Json → Option Json) := [handleVariant, handlePreproc, handlePrefs, handleNav, handleTts, handleIntent, handleHighlight, handleBrailleFinal, handleNumbers, handleRows, handleCanon, handleSpeech, handleTextCodes, handleFallback]
 
 def handle (req : Json) : Json :=
   let op := getStr req "op"
